@@ -832,4 +832,25 @@ theorem shapeOk_of_new (dims : List Nat) (batch : Nat) (s : Shape)
         simp only [h1, ↓reduceIte, h2, hcond, trim_trim]
         rfl
 
+/-! ### a concrete instance of the hypotheses -/
+
+/-- a 2×3 parameter on the naive device with a NaN payload, −0.0, a denormal and ±∞, a non-zero
+gradient and two statistics (one of them minibatched) -/
+def exampleParam : Param :=
+  let s : Shape := ⟨[2, 3], 1, 6⟩
+  ⟨s, .naive, ⟨s, [0x7fc00001, 0x80000000, 0x00000001, 0x7f800000, 0xff800000, 0x3f800000]⟩,
+   ⟨s, [1, 2, 3, 4, 5, 6]⟩,
+   [([109], ⟨⟨[2], 1, 2⟩, [1, 0x80000000]⟩), ([], ⟨⟨[], 2, 1⟩, [2, 3]⟩)]⟩
+
+theorem exampleShapeOk : ShapeOk ⟨[2, 3], 1, 6⟩ := by
+  refine ⟨by simp, by simp, by simp, rfl⟩
+
+theorem exampleParamOk : ParamOk exampleParam := by
+  refine ⟨⟨exampleShapeOk, rfl, by simp [exampleParam]⟩, rfl, by simp [exampleParam], ?_, by simp [exampleParam]⟩
+  intro x hx
+  simp only [exampleParam, List.mem_cons, List.mem_nil_iff, or_false] at hx
+  rcases hx with rfl | rfl
+  · exact ⟨by simp, ⟨by simp, by simp, by simp, rfl⟩, rfl, by simp⟩
+  · exact ⟨by simp, ⟨by simp, by simp, by simp, rfl⟩, rfl, by simp⟩
+
 end Primitiv.Files
